@@ -176,11 +176,12 @@ func Preset(prop string, adversarial bool, r *scen.Rand) *Params {
 		p.Counts = []int{1, 1, 1, 2, 3}
 		p.Alpha = Alpha{Plain: 6, Framing: 4, Structured: 1}
 		p.Envs = []map[string]string{envOff, envClean, envUpd}
-		p.EditKinds = []string{"removecall", "removetest", "shuffle", "skip", "retarget"}
+		p.EditKinds = []string{"removecall", "removetest", "shuffle", "skip", "retarget", "addcall", "addtest"}
 		p.RunP = 0.25
 		p.RecordTasksP = 0.6
 		p.PreCorruptP = 0.08 // what Clean reads from a damaged file must not leak into another file
 		p.PreEditP = 0.12    // blank lines a user added: a rewrite gets shorter than the file was
+		p.TasksP = 0.2       // Clean after tests that ran in parallel (what it reads must be what is on disk)
 		p.CleanP = 1
 		p.SortP = 0.7
 		p.MinTests = 2
